@@ -112,6 +112,34 @@ pub fn run(args: &Args) {
     // the linter runs exactly the selected rules: a file with directives (unused, unknown and used ones) and a
     // little of everything is linted under the selection; every diagnostic must come from a selected rule, and
     // each selected rule must report what it reports when run alone
+    // every rule handed to the linter is run on every file, whatever its tags and whatever the file's media type: caller-
+    // owned probe rules (one per tag) next to the selection
+    if i % 6 == 2 {
+      let probes = tag_probes();
+      let mut rules = rules_by_codes(&got);
+      let mut counters = vec![];
+      for (r, code, ran) in probes {
+        rules.push(r);
+        counters.push((code, ran));
+      }
+      rng.shuffle(&mut rules);
+      let l = mk_linter(rules, &Words::default());
+      let exts = ["ts", "js", "tsx", "jsx", "mjs", "d.ts", "cts"];
+      let mut linted = 0;
+      for e in exts {
+        let src = if e.ends_with('x') { "export const a = <div/>;\n" } else { "export const a = 1;\n" };
+        if let Outcome::Ok(_) = lint(&l, src, e) {
+          linted += 1;
+        }
+      }
+      out.count("tag-probes");
+      for (code, ran) in &counters {
+        let n = ran.load(std::sync::atomic::Ordering::SeqCst);
+        if n != linted {
+          out.found("C15", "a-supplied-rule-did-not-run-on-every-file", &key, json!({"tags": tags, "excl": excl, "incl": incl, "probe": code, "files_linted": linted, "times_run": n, "media_types": exts}));
+        }
+      }
+    }
     if i % 4 == 1 && !got.is_empty() {
       use dlharness::gen::*;
       let o = DirGenOpts { file_word: "deno-lint-ignore-file", line_word: "deno-lint-ignore", decoys: vec![], ts: true };
